@@ -67,9 +67,10 @@ const (
 	KCond
 	KFile
 	KHarness
+	KChoice
 )
 
-var kindNames = [...]string{"start", "lock", "rlock", "wlock-announce", "wlock", "wg-wait", "cond", "file", "harness"}
+var kindNames = [...]string{"start", "lock", "rlock", "wlock-announce", "wlock", "wg-wait", "cond", "file", "harness", "choice"}
 
 func (k Kind) String() string { return kindNames[k] }
 
@@ -92,6 +93,8 @@ type Thread struct {
 	PanicStk string
 	Steps    int
 	prio     int // deprioritisation stamp: a preempted thread goes behind the others
+	alts     int // > 1: the thread is parked at a choice point with that many alternatives
+	choice   int
 }
 
 type Dev struct {
@@ -367,6 +370,33 @@ func HarnessPoint(label string) {
 	}
 }
 
+// Choose is a choice point of the code under test itself (the instrumenter
+// puts one in front of every blocking select: Go resolves a select with
+// several ready cases randomly, and that choice has to be owned by the
+// search). It returns the alternative picked by the scheduler, 0 by default.
+func Choose(n int) int {
+	s := cur.Load()
+	if s == nil || n <= 1 {
+		return 0
+	}
+	t := CurrentThread()
+	if t == nil || s.killing.Load() {
+		return 0
+	}
+	site := callSite()
+	s.mu.Lock()
+	t.kind, t.obj, t.enabled, t.site = KChoice, nil, nil, site
+	t.alts, t.choice = n, 0
+	t.parked = true
+	s.mu.Unlock()
+	s.signal()
+	<-t.gate
+	if s.killing.Load() {
+		runtime.Goexit()
+	}
+	return t.choice
+}
+
 type ThreadInfo struct {
 	Name   string
 	Tag    string
@@ -424,6 +454,10 @@ func (s *Sched) Run(main func()) {
 		}
 		if alive == 0 {
 			s.mu.Unlock()
+			// grace period: let timers of unmanaged helper goroutines (client
+			// timeouts, watchdogs) expire so that they can exit with the bubble
+			time.Sleep(3 * time.Minute)
+			synctest.Wait()
 			return
 		}
 		if s.killing.Load() {
@@ -479,9 +513,28 @@ func (s *Sched) Run(main func()) {
 		}
 		now := time.Since(s.start)
 		stepNo := len(s.Trace)
-		menu := make([]string, 0, len(en)+1)
+		type item struct {
+			t   *Thread
+			alt int
+		}
+		items := make([]item, 0, len(en)+2)
 		for _, t := range en {
-			menu = append(menu, t.Name)
+			items = append(items, item{t, 0})
+		}
+		for _, t := range en {
+			if t.kind == KChoice {
+				for a := 1; a < t.alts; a++ {
+					items = append(items, item{t, a})
+				}
+			}
+		}
+		menu := make([]string, 0, len(items)+1)
+		for _, it := range items {
+			if it.alt == 0 {
+				menu = append(menu, it.t.Name)
+			} else {
+				menu = append(menu, fmt.Sprintf("%s#%d", it.t.Name, it.alt))
+			}
 		}
 		menu = append(menu, "clock")
 		choice := 0
@@ -495,9 +548,12 @@ func (s *Sched) Run(main func()) {
 			choice = c
 		}
 		st := Step{Menu: menu, Choice: choice, Now: now, Window: s.window.Load(), LastEnabled: lastEnabled, NThreads: alive}
-		if choice < len(en) {
-			t := en[choice]
+		if choice < len(items) {
+			t := items[choice].t
 			st.Desc = t.Name + ":" + t.kind.String() + "@" + t.site
+			if items[choice].alt > 0 {
+				st.Desc += fmt.Sprintf("#%d", items[choice].alt)
+			}
 		} else {
 			st.Desc = "clock"
 		}
@@ -539,13 +595,15 @@ func (s *Sched) Run(main func()) {
 			s.killing.Store(true)
 			continue
 		}
-		if choice < len(en) {
-			t := en[choice]
-			if lastEnabled && choice > 0 {
+		if choice < len(items) {
+			t := items[choice].t
+			if lastEnabled && t != en[0] {
 				// delay-bounding flavour: the preempted thread yields to everybody else
 				s.prioCounter++
 				en[0].prio = s.prioCounter
 			}
+			t.choice = items[choice].alt
+			t.alts = 0
 			t.parked = false
 			t.Steps++
 			s.last = t
